@@ -23,12 +23,13 @@ MECHANISMS = [
     ('TotalDepth.util.bin_file_type', '_rp66v1'), ('TotalDepth.util.bin_file_type', '_las'), ('TotalDepth.util.bin_file_type', '_ascii'),
     ('TotalDepth.util.bin_file_type', '_segy'), ('TotalDepth.util.bin_file_type', '_rp66v2'), ('TotalDepth.util.bin_file_type', '_lis_ver'),
     ('TotalDepth.LIS.core.File', 'file_read_with_best_physical_record_pad_settings'),
-    ('TotalDepth.DAT.DAT_parser', 'can_parse_file'),
+    ('TotalDepth.DAT.DAT_parser', 'can_parse_file'), ('TotalDepth.BIT.ReadBIT', 'is_bit_file'),
 ]
-REQUIRED_MONITORS = ['valid_identified', 'metamorphic_same_code', 'no_raise', 'code_in_documented_set', 'rewound_and_unchanged', 'step_budget']
-MIN_NONTRIVIAL = {'quick': 3000, 'thorough': 100000}
+REQUIRED_MONITORS = ['valid_identified', 'metamorphic_same_code', 'no_raise', 'code_in_documented_set', 'rewound_and_unchanged', 'step_budget',
+                     'format_gates_no_raise', 'bit_gate_accepts_valid_bit', 'dat_gate_accepts_valid_dat']
+MIN_NONTRIVIAL = {'quick': 20000, 'thorough': 300000}
 NSHARDS = 16
-COUNTS = {'quick': (60, 1100), 'thorough': (1500, 40000)}      # per shard: valid files, hostile inputs
+COUNTS = {'quick': (300, 5000), 'thorough': (4000, 90000)}      # per shard: valid files, hostile inputs
 TIMEOUT_S = {'quick': 400, 'thorough': 3300}
 # logical-clock budget, calibrated (see evidence keys max_steps_*): steps <= A * len + B
 BUDGET_A, BUDGET_B = 1000, 5_000_000
@@ -77,12 +78,43 @@ def identify(rec, bft, steps, data, label, expect=None, witness=None):
         pos = io.BytesIO.tell(f)
         if pos != 0 or f.getvalue() != data:
             rec.violation('rewound_and_unchanged', 'position', 'file left at offset %d after identification (%s input, code %r)' % (pos, label, code), dict(w, got=code, position=pos))
+    # ---- the formats' own gates used by the directory tools (BIT reader, DAT parser): same property, same input
+    gates(rec, data, label, expect, code, w)
     if expect is not None:
         rec.mon('valid_identified')
         ok = code in expect if isinstance(expect, (set, frozenset, tuple, list)) else code == expect
         if not ok:
             rec.violation('valid_identified', 'misidentified', 'valid %s file identified as %r, expected %r' % (label, code, expect), dict(w, got=code, expected=sorted(expect) if not isinstance(expect, str) else expect))
     return code
+
+
+def gates(rec, data, label, expect, code, w):
+    from TotalDepth.BIT import ReadBIT
+    from TotalDepth.DAT import DAT_parser
+    f = io.BytesIO(data)
+    rec.mon('format_gates_no_raise')
+    try:
+        isbit = ReadBIT.is_bit_file(f)
+    except Exception as e:  # noqa
+        rec.violation('format_gates_no_raise', 'is_bit_file:' + type(e).__name__, 'ReadBIT.is_bit_file raised %s on a %d-byte %s input: %s' % (type(e).__name__, len(data), label, str(e)[:150]), w, exc=e)
+        isbit = None
+    if expect == 'BIT':
+        rec.mon('bit_gate_accepts_valid_bit')
+        if isbit is not True:
+            rec.violation('bit_gate_accepts_valid_bit', 'refused', 'ReadBIT.is_bit_file is %r for a valid BIT file (binary_file_type says %r): the BIT directory tool would silently ignore it' % (isbit, code), dict(w, got=repr(isbit)))
+    try:
+        text = data.decode('ascii')
+    except UnicodeDecodeError:
+        return
+    try:
+        ok = DAT_parser.can_parse_file(io.StringIO(text))
+    except Exception as e:  # noqa
+        rec.violation('format_gates_no_raise', 'can_parse_file:' + type(e).__name__, 'DAT_parser.can_parse_file raised %s on a %d-byte %s input: %s' % (type(e).__name__, len(data), label, str(e)[:150]), w, exc=e)
+        return
+    if expect == 'DAT':
+        rec.mon('dat_gate_accepts_valid_dat')
+        if ok is not True:
+            rec.violation('dat_gate_accepts_valid_dat', 'refused', 'DAT_parser.can_parse_file is %r for a valid DAT file' % ok, dict(w, got=repr(ok)))
 
 
 def run_shard(ctx, p):
@@ -134,3 +166,13 @@ def run_shard(ctx, p):
         identify(rec, bft, steps, data, label)
         rec.case(data, nt, classes=[label])
     steps.close()
+
+
+LEVEL_TEXT = ('Every input - valid files of each supported format from independent generators in random layouts and sizes, and hostile '
+              'inputs (random bytes, near-miss signatures, truncations, bit flips, splices, word / hostile-number / line edits, generator-level '
+              'single-line DAT corruptions) - is identified by the real binary_file_type through a tapped in-memory file under a LINE-event '
+              'step counter: expected code, code set, no exception, rewound and unchanged, logical-step budget; the BIT and DAT gates used by '
+              'the directory tools are held to the same standard.')
+LEVEL_NOTE = ('Trusted: the generators for what a valid file is; the step budget constants (calibrated ~10x above the maximum observed). '
+              'Arbitrary byte strings are sampled, not enumerated; the thorough tier adds volume, not a different oracle.')
+TECHNIQUE = 'runtime monitoring: oracle over identification executions with I/O tap (rewind), sys.monitoring step budget, metamorphic size/content pairs and hostile-input fuzzing'
